@@ -295,34 +295,8 @@ pub fn run(prop: &str, tier: &str, replay: Option<&str>) -> i32 {
     // constraints) does not change what is written into the subject's certificate: every CA flag / path length of the subject
     // under issuers with path length 0, 1, 2, 5 and under restricted issuers
     {
-        let mk = |f: &dyn Fn(&mut CertState)| -> Ctx {
-            let iraw = fake_pub(Alg::EcP256, 0x52);
-            let (ikp, log) = stub_key(Alg::EcP256, &iraw);
-            let mut st = crate::glue::base_cert_state();
-            st.dn = DnSpec::cn("constrained issuer");
-            st.is_ca = IsCaSpec::Unconstrained;
-            st.key_id = KeyIdSpec::Sha256;
-            f(&mut st);
-            let cert = crate::glue::to_params(&st).unwrap().self_signed(&ikp).unwrap();
-            let issuer = IssuerReal { spec: IssuerSpec { dn: st.dn.clone(), key_id: st.key_id.clone(), key: KeyPub { alg: Alg::EcP256, raw: iraw }, key_usages: st.key_usages.clone() }, cert, key: ikp };
-            let sraw = fake_pub(Alg::Ed25519, 0x07);
-            Ctx { label: "subject under an issuer that is itself constrained".into(), issuer: Some(issuer), subject: SubjectSrc::Pair(stub_key(Alg::Ed25519, &sraw).0), subject_pub: KeyPub { alg: Alg::Ed25519, raw: sraw }, log: Some(log) }
-        };
-        let ctxs: Vec<(&str, Ctx)> = vec![
-            ("issuer path length 0", mk(&|st| st.is_ca = IsCaSpec::Constrained(0))),
-            ("issuer path length 1", mk(&|st| st.is_ca = IsCaSpec::Constrained(1))),
-            ("issuer path length 2", mk(&|st| st.is_ca = IsCaSpec::Constrained(2))),
-            ("issuer path length 5", mk(&|st| st.is_ca = IsCaSpec::Constrained(5))),
-            ("issuer with EKU clientAuth, KU keyCertSign, name constraints", mk(&|st| {
-                st.ekus = vec![EkuSpec::ClientAuth];
-                st.key_usages = vec![5];
-                st.nc = Some(NcSpec { permitted: vec![SubtreeSpec::Dns("only.example".into())], excluded: vec![] });
-            })),
-            ("issuer that is not a CA", mk(&|st| st.is_ca = IsCaSpec::NoCa)),
-        ];
-        let mut iscas = vec![IsCaSpec::NoCa, IsCaSpec::ExplicitNoCa, IsCaSpec::Unconstrained];
-        iscas.extend((0..=8u8).map(IsCaSpec::Constrained));
-        iscas.extend([127u8, 128, 255].map(IsCaSpec::Constrained));
+        let ctxs = constrained_issuer_ctxs();
+        let iscas = constrained_subject_roles();
         let cases: Vec<(usize, usize, u8)> = (0..ctxs.len()).flat_map(|c| (0..iscas.len()).flat_map(move |i| (0..2u8).map(move |k| (c, i, k)))).collect();
         let sec = Section::new("sweep/subject fields under constrained issuers", "6 issuers whose own certificates carry a path length (0, 1, 2, 5), usages + name constraints, or no CA flag x 15 CA flag / path length values of the subject x {plain, with usages / names / EKUs / name constraints}: the subject's certificate says what was asked for it");
         run::sweep_cases(&sec, &cases, &|c| format!("{} / subject {:?} / kind {}", ctxs[c.0].0, iscas[c.1], c.2), &|c| {
@@ -1297,4 +1271,42 @@ fn cross_validate(der: &[u8], abs: &refmodel::x509::AbsCert, st: &CertState) -> 
         }
     }
     m
+}
+
+/// Issuers whose own certificates carry a path length (0, 1, 2, 5), usages + name constraints, or no CA flag.
+pub fn constrained_issuer_ctxs() -> Vec<(&'static str, Ctx)> {
+    let mk = |f: &dyn Fn(&mut CertState)| -> Ctx {
+        let iraw = fake_pub(Alg::EcP256, 0x52);
+        let (ikp, log) = stub_key(Alg::EcP256, &iraw);
+        let mut st = crate::glue::base_cert_state();
+        st.dn = DnSpec::cn("constrained issuer");
+        st.is_ca = IsCaSpec::Unconstrained;
+        st.key_id = KeyIdSpec::Sha256;
+        f(&mut st);
+        let cert = crate::glue::to_params(&st).unwrap().self_signed(&ikp).unwrap();
+        let issuer = IssuerReal { spec: IssuerSpec { dn: st.dn.clone(), key_id: st.key_id.clone(), key: KeyPub { alg: Alg::EcP256, raw: iraw }, key_usages: st.key_usages.clone() }, cert, key: ikp };
+        let sraw = fake_pub(Alg::Ed25519, 0x07);
+        Ctx { label: "subject under an issuer that is itself constrained".into(), issuer: Some(issuer), subject: SubjectSrc::Pair(stub_key(Alg::Ed25519, &sraw).0), subject_pub: KeyPub { alg: Alg::Ed25519, raw: sraw }, log: Some(log) }
+    };
+    let ctxs: Vec<(&str, Ctx)> = vec![
+        ("issuer path length 0", mk(&|st| st.is_ca = IsCaSpec::Constrained(0))),
+        ("issuer path length 1", mk(&|st| st.is_ca = IsCaSpec::Constrained(1))),
+        ("issuer path length 2", mk(&|st| st.is_ca = IsCaSpec::Constrained(2))),
+        ("issuer path length 5", mk(&|st| st.is_ca = IsCaSpec::Constrained(5))),
+        ("issuer with EKU clientAuth, KU keyCertSign, name constraints", mk(&|st| {
+            st.ekus = vec![EkuSpec::ClientAuth];
+            st.key_usages = vec![5];
+            st.nc = Some(NcSpec { permitted: vec![SubtreeSpec::Dns("only.example".into())], excluded: vec![] });
+        })),
+        ("issuer that is not a CA", mk(&|st| st.is_ca = IsCaSpec::NoCa)),
+    ];
+    ctxs
+}
+
+/// Every kind of CA flag / path length a subject can ask for.
+pub fn constrained_subject_roles() -> Vec<IsCaSpec> {
+    let mut iscas = vec![IsCaSpec::NoCa, IsCaSpec::ExplicitNoCa, IsCaSpec::Unconstrained];
+    iscas.extend((0..=8u8).map(IsCaSpec::Constrained));
+    iscas.extend([127u8, 128, 255].map(IsCaSpec::Constrained));
+    iscas
 }
